@@ -166,9 +166,22 @@ def run(ctx):
                 axis = None
             gs = None
         x, assign, gid = spread_tensor(rng, shape, axis if (nd > 1 or gs is not None) else None, gs, wd)
-        desc = dict(dtype=str(wd), qtype=qtn, axis=axis, group_size=gs, shape=list(shape), classes=sorted(set(assign)))
+        # weights are not always freshly allocated: transposed storage (tied / transposed layers), channels_last convolution
+        # kernels and windows of a larger buffer hold the same values
+        u = rng.random()
+        lay = "contiguous"
+        if nd >= 2 and u < 0.4:
+            if nd == 4 and u < 0.12:
+                x, lay = x.contiguous(memory_format=torch.channels_last), "channels_last"
+            else:
+                lay = "transposed" if u < 0.27 else "sliced"
+                x = next(gen.layouts(x, which=(lay,)))[1]
+        desc = dict(dtype=str(wd), qtype=qtn, axis=axis, group_size=gs, shape=list(shape), classes=sorted(set(assign)), layout=lay)
         if not ctx.case(desc):
             continue
+        ctx.see("layouts", lay)
+        if lay != "contiguous":
+            ctx.count("noncontiguous_sources")
         ctx.count("executions")
         crng = ctx.crng
         xb = fp.plain_bytes(x)
